@@ -13,13 +13,13 @@ package raft
 
 import (
 	"bytes"
-	"regexp"
-	"strconv"
 	"context"
 	"errors"
 	"fmt"
 	"os"
+	"regexp"
 	"sort"
+	"strconv"
 	"strings"
 	"sync"
 	"sync/atomic"
@@ -146,7 +146,7 @@ func c08Until(f func() bool) bool {
 // ---- action specs (state independent, so that rapid can delete actions when shrinking)
 
 type c08Action struct {
-	Kind  int // 0 start put, 1 start delete, 2 begin, 3 tx get, 4 tx put, 5 tx delete, 6 tx list, 7 start commit, 8 release one batch, 9 quiesce, 10 rollback, 11 use finished txn
+	Kind  int // 0 start put, 1 start delete, 2 begin, 3 tx get, 4 tx put, 5 tx delete, 6 tx list, 7 start commit, 8 release one batch, 9 quiesce, 10 rollback, 11 use finished txn, 12 next step of a transaction's script
 	Key   int
 	Val   int
 	Slot  int
@@ -154,13 +154,33 @@ type c08Action struct {
 	Pfx   int
 	After int
 	Limit int
+	// begin only: the transaction's script
+	Script      []c08Action
+	EndRollback bool
 }
 
-var c08KindNames = []string{"put", "delete", "begin", "tx-get", "tx-put", "tx-delete", "tx-list", "commit", "release", "quiesce", "rollback", "use-finished"}
+var c08KindNames = []string{"put", "delete", "begin", "tx-get", "tx-put", "tx-delete", "tx-list", "commit", "release", "quiesce", "rollback", "use-finished", "step"}
+
+func c08TxOpGen() *rapid.Generator[c08Action] {
+	kinds := []int{3, 3, 3, 4, 4, 4, 5, 6, 6}
+	return rapid.Custom(func(t *rapid.T) c08Action {
+		a := c08Action{Kind: kinds[rapid.IntRange(0, len(kinds)-1).Draw(t, "txop")]}
+		if a.Kind == 6 {
+			a.Pfx = rapid.IntRange(0, len(c08Prefixes)-1).Draw(t, "prefix")
+			a.After = rapid.IntRange(0, len(c08Afters)-1).Draw(t, "after")
+			a.Limit = rapid.IntRange(0, len(c08Limits)-1).Draw(t, "limit")
+		} else {
+			a.Key = rapid.IntRange(0, len(c08Keys)-1).Draw(t, "key")
+			a.Val = rapid.IntRange(0, len(c08Values)-1).Draw(t, "val")
+		}
+		return a
+	})
+}
 
 func c08ActionGen() *rapid.Generator[c08Action] {
 	// weights
-	kinds := []int{0, 0, 0, 0, 0, 1, 2, 2, 2, 2, 2, 3, 3, 3, 3, 4, 4, 4, 4, 4, 5, 6, 6, 7, 7, 7, 7, 7, 7, 8, 8, 8, 8, 9, 10, 11}
+	// rapid draws small indexes more often: most wanted first
+	kinds := []int{12, 12, 2, 0, 12, 8, 12, 0, 2, 12, 0, 12, 8, 2, 12, 0, 12, 8, 0, 12, 1, 3, 4, 6, 7, 8, 9, 10, 11}
 	return rapid.Custom(func(t *rapid.T) c08Action {
 		a := c08Action{Kind: kinds[rapid.IntRange(0, len(kinds)-1).Draw(t, "kind")]}
 		switch a.Kind {
@@ -169,7 +189,9 @@ func c08ActionGen() *rapid.Generator[c08Action] {
 			a.Val = rapid.IntRange(0, len(c08Values)-1).Draw(t, "val")
 		case 2:
 			a.Slot = rapid.IntRange(0, 2).Draw(t, "slot")
-			a.RO = rapid.IntRange(0, 9).Draw(t, "ro") == 9
+			a.RO = rapid.IntRange(0, 11).Draw(t, "ro") == 11
+			a.Script = rapid.SliceOfN(c08TxOpGen(), 1, 4).Draw(t, "script")
+			a.EndRollback = rapid.IntRange(0, 9).Draw(t, "endRollback") == 9
 		case 3, 4, 5:
 			a.Slot = rapid.IntRange(0, 2).Draw(t, "slot")
 			a.Key = rapid.IntRange(0, len(c08Keys)-1).Draw(t, "key")
@@ -179,7 +201,7 @@ func c08ActionGen() *rapid.Generator[c08Action] {
 			a.Pfx = rapid.IntRange(0, len(c08Prefixes)-1).Draw(t, "prefix")
 			a.After = rapid.IntRange(0, len(c08Afters)-1).Draw(t, "after")
 			a.Limit = rapid.IntRange(0, len(c08Limits)-1).Draw(t, "limit")
-		case 7, 10, 11:
+		case 7, 10, 11, 12:
 			a.Slot = rapid.IntRange(0, 2).Draw(t, "slot")
 		}
 		return a
@@ -236,7 +258,10 @@ type c08Txn struct {
 	Finish      string
 	commit      *c08Op
 	CommitErr   error
-	Committed   bool // Commit was called (with or without a log entry)
+	Committed   bool        // Commit was called (with or without a log entry)
+	Script      []c08Action // operations the "step" action executes in order, followed by commit / rollback
+	EndRollback bool
+	pc          int
 }
 
 func c08CopyOverlay(m map[string]*string) map[string]*string {
@@ -371,19 +396,19 @@ func c08AlwaysVerify(ld *LogData, s c08State) (bool, string) {
 // ---- one case
 
 type c08Run struct {
-	rt      *rapid.T
-	env     *c08Env
-	b       *RaftBackend
-	prefix  string
-	ops     []*c08Op // logged operations in start order
-	pending []*c08Op // started, not yet applied by the FSM
-	slots   [3]*c08Txn
-	txns    []*c08Txn
-	trace   []string
-	wg      sync.WaitGroup
+	rt           *rapid.T
+	env          *c08Env
+	b            *RaftBackend
+	prefix       string
+	ops          []*c08Op // logged operations in start order
+	pending      []*c08Op // started, not yet applied by the FSM
+	slots        [3]*c08Txn
+	txns         []*c08Txn
+	trace        []string
+	wg           sync.WaitGroup
 	caughtUpOnly bool
-	failed  string
-	base    uint64 // raft's last index when the case began
+	failed       string
+	base         uint64 // raft's last index when the case began
 }
 
 func (r *c08Run) tracef(format string, a ...any) {
@@ -541,10 +566,10 @@ func TestVerif_C08_RaftLive(t *testing.T) {
 	env := c08NewEnv(t)
 	ctx := context.Background()
 	rapid.Check(t, func(rt *rapid.T) {
-		caughtUpOnly := rapid.IntRange(0, 9).Draw(rt, "beginOnlyWhenFSMCaughtUp") >= 6
+		caughtUpOnly := rapid.IntRange(0, 9).Draw(rt, "beginOnlyWhenFSMCaughtUp") >= 7
 		// rapid's slices average min+5 elements; concatenated chunks give long schedules that still shrink by deletion
 		var actions []c08Action
-		for i, n := 0, rapid.IntRange(1, 6).Draw(rt, "chunks"); i < n; i++ {
+		for i, n := 0, rapid.SampledFrom([]int{6, 5, 4, 3, 2, 1}).Draw(rt, "chunks"); i < n; i++ {
 			lo := 0
 			if i == 0 {
 				lo = 1
@@ -566,22 +591,40 @@ func TestVerif_C08_RaftLive(t *testing.T) {
 		defer r.cleanup()
 
 		maxLagAtBegin := uint64(0)
-		for ai, a := range actions {
+		var exec func(ai int, a c08Action, forced *c08Txn) bool
+		exec = func(ai int, a c08Action, forced *c08Txn) bool { // true: the case is over (a listed known finding was met)
 			if r.failed != "" {
-				break
+				return false
 			}
 			// the slot number picks among the transactions the action applies to (open ones; finished ones for kind 11)
-			var t *c08Txn
-			if a.Kind >= 3 && a.Kind != 8 && a.Kind != 9 {
+			t := forced
+			if t == nil && a.Kind >= 3 && a.Kind != 8 && a.Kind != 9 {
 				var cands []*c08Txn
 				for _, x := range r.slots {
-					if x != nil && ((a.Kind == 11 && x.State == 2) || (a.Kind != 11 && x.State == 0)) {
+					if x != nil && ((a.Kind == 11 && x.State == 2) || (a.Kind != 11 && x.State == 0 && (a.Kind != 12 || x.Script != nil))) {
 						cands = append(cands, x)
 					}
 				}
 				if len(cands) > 0 {
 					t = cands[a.Slot%len(cands)]
 				}
+			}
+			if a.Kind == 12 {
+				// next step of the transaction's own script, then its commit (or rollback)
+				if t == nil {
+					return false
+				}
+				var next c08Action
+				switch {
+				case t.pc < len(t.Script):
+					next = t.Script[t.pc]
+				case t.EndRollback:
+					next = c08Action{Kind: 10}
+				default:
+					next = c08Action{Kind: 7}
+				}
+				t.pc++
+				return exec(ai, next, t)
 			}
 			switch a.Kind {
 			case 0, 1:
@@ -607,12 +650,12 @@ func TestVerif_C08_RaftLive(t *testing.T) {
 					}
 				}
 				if slot < 0 {
-					continue
+					return false
 				}
 				if caughtUpOnly && !r.drain() {
-					break
+					return false
 				}
-				nt := &c08Txn{ID: len(r.txns), RO: a.RO, overlay: map[string]*string{}}
+				nt := &c08Txn{ID: len(r.txns), RO: a.RO, overlay: map[string]*string{}, Script: a.Script, EndRollback: a.EndRollback}
 				nt.RaftApplied = b.raft.AppliedIndex()
 				var err error
 				if a.RO {
@@ -635,13 +678,13 @@ func TestVerif_C08_RaftLive(t *testing.T) {
 				r.tracef("%d: begin T%d ro=%v start=@%d raftApplied=@%d lag=%d", ai, nt.ID, nt.RO, nt.Start, nt.RaftApplied, nt.Lag)
 			case 3:
 				if t == nil || t.State != 0 {
-					continue
+					return false
 				}
 				key := r.prefix + c08Keys[a.Key]
 				e, err := t.tx.Get(ctx, key)
 				if err != nil {
 					rec.Violation(rt, "txn-get-error", r.detail(nil), "%s", r.norm(fmt.Sprintf("T%d get(%s): %v", t.ID, key, err)))
-					return
+					return true
 				}
 				o := &c08Obs{Kind: "get", Key: key, Overlay: c08CopyOverlay(t.overlay), GotNil: e == nil}
 				if e != nil {
@@ -651,7 +694,7 @@ func TestVerif_C08_RaftLive(t *testing.T) {
 				r.tracef("%d: T%d %s", ai, t.ID, o)
 			case 4, 5:
 				if t == nil || t.State != 0 {
-					continue
+					return false
 				}
 				key := r.prefix + c08Keys[a.Key]
 				var err error
@@ -664,13 +707,13 @@ func TestVerif_C08_RaftLive(t *testing.T) {
 				if t.RO {
 					if !errors.Is(err, physical.ErrTransactionReadOnly) {
 						rec.Violation(rt, "read-only-txn-accepts-write", r.detail(nil), "%s", r.norm(fmt.Sprintf("read-only T%d write(%s) returned %v", t.ID, key, err)))
-						return
+						return true
 					}
-					continue
+					return false
 				}
 				if err != nil {
 					rec.Violation(rt, "txn-write-error", r.detail(nil), "%s", r.norm(fmt.Sprintf("T%d write(%s): %v", t.ID, key, err)))
-					return
+					return true
 				}
 				t.Wrote = true
 				if a.Kind == 4 {
@@ -682,20 +725,20 @@ func TestVerif_C08_RaftLive(t *testing.T) {
 				}
 			case 6:
 				if t == nil || t.State != 0 {
-					continue
+					return false
 				}
 				o := &c08Obs{Kind: "list", Prefix: r.prefix + c08Prefixes[a.Pfx], After: c08Afters[a.After], Limit: c08Limits[a.Limit], Overlay: c08CopyOverlay(t.overlay)}
 				keys, err := t.tx.ListPage(ctx, o.Prefix, o.After, o.Limit)
 				if err != nil {
 					rec.Violation(rt, "txn-list-error", r.detail(nil), "%s", r.norm(fmt.Sprintf("T%d list(%s): %v", t.ID, o.Prefix, err)))
-					return
+					return true
 				}
 				o.GotList = keys
 				t.Obs = append(t.Obs, o)
 				r.tracef("%d: T%d %s", ai, t.ID, o)
 			case 7:
 				if t == nil || t.State != 0 {
-					continue
+					return false
 				}
 				t.Committed = true
 				t.Finish = "commit"
@@ -710,7 +753,7 @@ func TestVerif_C08_RaftLive(t *testing.T) {
 					}
 					t.State = 2
 					r.tracef("%d: T%d commit (no writes) -> %v", ai, t.ID, t.CommitErr)
-					continue
+					return false
 				}
 				op := &c08Op{Kind: "commit", Txn: t, Key: fmt.Sprintf("T%d", t.ID)}
 				t.State = 1
@@ -732,18 +775,18 @@ func TestVerif_C08_RaftLive(t *testing.T) {
 				r.drain()
 			case 10:
 				if t == nil || t.State != 0 {
-					continue
+					return false
 				}
 				if err := t.tx.Rollback(ctx); err != nil {
 					rec.Violation(rt, "rollback-error", r.detail(nil), "%s", r.norm(fmt.Sprintf("T%d rollback: %v", t.ID, err)))
-					return
+					return true
 				}
 				t.State = 2
 				t.Finish = "rollback"
 				r.tracef("%d: T%d rollback", ai, t.ID)
 			case 11:
 				if t == nil || t.State != 2 {
-					continue
+					return false
 				}
 				_, err := t.tx.Get(ctx, r.prefix+c08Keys[0])
 				err2 := t.tx.Put(ctx, &physical.Entry{Key: r.prefix + c08Keys[0], Value: []byte("late")})
@@ -752,9 +795,18 @@ func TestVerif_C08_RaftLive(t *testing.T) {
 					// a finished read-only transaction may refuse the write with either error
 					if !errors.Is(e, physical.ErrTransactionAlreadyCommitted) && !(i == 1 && t.RO && errors.Is(e, physical.ErrTransactionReadOnly)) {
 						rec.Violation(rt, "finished-txn-usable", r.detail(nil), "%s", r.norm(fmt.Sprintf("T%d after %s: get/put/commit returned %v / %v / %v", t.ID, t.Finish, err, err2, err3)))
-						return
+						return true
 					}
 				}
+			}
+			return false
+		}
+		for ai, a := range actions {
+			if r.failed != "" {
+				break
+			}
+			if exec(ai, a, nil) {
+				return
 			}
 		}
 		if r.failed == "" {
@@ -983,9 +1035,9 @@ func c08Judge(rt *rapid.T, rec *verifx.Recorder, r *c08Run, caseStart uint64, ca
 				if now == o.got() {
 					continue
 				}
-				// listing grew behind the last entry the transaction was shown?
-				if o.Kind != "list" || len(o.GotList) == 0 || (o.Limit > 0 && len(o.GotList) >= o.Limit) ||
-					!strings.HasPrefix(now, strings.TrimSuffix(o.got(), "]")+" ") {
+				// a listing that was not cut short by its limit: the backend ships a verification limited to the
+				// number of stored entries it iterated, so stored entries appearing behind them go unnoticed
+				if o.Kind != "list" || (o.Limit > 0 && len(o.GotList) >= o.Limit) {
 					phantom = false
 				}
 			}
